@@ -681,6 +681,63 @@ func init() {
 		Variant{Name: "handler's gauge Dec is no longer deferred", Property: "C20", File: "proxy/adminservice.go",
 			Old: "\tstreamsActiveGauge.Inc()\n\tdefer streamsActiveGauge.Dec()\n", New: "\tstreamsActiveGauge.Inc()\n", Expect: "O20.11"},
 	)
+	// ---- mutants of the sweep (tools/mutsweep.py) that no rule reported; each is now reported by the rule named
+	addVariants(
+		Variant{Name: "mutant: clamp applied whenever a source high watermark is known (`||` for `&&`)", Property: "C01", File: "proxy/proxy_streams.go",
+			Old: "\t\t\t\t\tif lastExclusiveHighOriginal > 0 && min > lastExclusiveHighOriginal {\n", New: "\t\t\t\t\tif lastExclusiveHighOriginal > 0 || min > lastExclusiveHighOriginal {\n", Expect: "O1.1"},
+		Variant{Name: "mutant: same mutation seen by C03", Property: "C03", File: "proxy/proxy_streams.go",
+			Old: "\t\t\t\t\tif lastExclusiveHighOriginal > 0 && min > lastExclusiveHighOriginal {\n", New: "\t\t\t\t\tif lastExclusiveHighOriginal > 0 || min > lastExclusiveHighOriginal {\n", Expect: "O3.2"},
+		Variant{Name: "mutant: minimum loop takes a value only under `first && wm < min`", Property: "C01", File: "proxy/proxy_streams.go",
+			Old: "\t\t\t\t\tif first || wm < min {\n", New: "\t\t\t\t\tif first && wm < min {\n", Expect: "O1.1"},
+		Variant{Name: "mutant: same mutation seen by C03", Property: "C03", File: "proxy/proxy_streams.go",
+			Old: "\t\t\t\t\tif first || wm < min {\n", New: "\t\t\t\t\tif first && wm < min {\n", Expect: "O3.1"},
+		Variant{Name: "mutant: per-source maximum updated only under `!ok && task > current`", Property: "C05", File: "proxy/proxy_streams.go",
+			Old: "\t\tif current, ok := result[m.sourceShard]; !ok || m.sourceTask > current {\n", New: "\t\tif current, ok := result[m.sourceShard]; !ok && m.sourceTask > current {\n", Expect: "O5.4"},
+		Variant{Name: "mutant: lastSentMin no longer recorded after a Send", Property: "C03", File: "proxy/proxy_streams.go",
+			Old: "\t\t\t\t\tr.lastSentMin = min\n", New: "\t\t\t\t\t\n", Expect: "O3.3"},
+		Variant{Name: "mutant: clamp bound no longer recorded for a batch", Property: "C03", File: "proxy/proxy_streams.go",
+			Old: "\t\t\tr.lastExclusiveHighOriginal = attr.Messages.ExclusiveHighWatermark\n", New: "\t\t\t\n", Expect: "O3.2"},
+		Variant{Name: "mutant: ack retry loop forgets to mark a delivered source", Property: "C01", File: "proxy/proxy_streams.go",
+			Old: "\t\t\t\t\t\t\tsent[srcShard] = true\n\t\t\t\t\t\t\tnumRemaining--\n\t\t\t\t\t\t\tprogress = true\n\t\t\t\t\t\t\t// record last ack per source shard after forwarding\n", New: "\t\t\t\t\t\t\t\n\t\t\t\t\t\t\tnumRemaining--\n\t\t\t\t\t\t\tprogress = true\n\t\t\t\t\t\t\t// record last ack per source shard after forwarding\n", Expect: "O1.3"},
+		Variant{Name: "mutant: growth falls back to capacity 1 whenever the doubled capacity is not 0", Property: "C05", File: "proxy/proxy_streams.go",
+			Old: "\tif newCap == 0 {\n", New: "\tif newCap != 0 {\n", Expect: "O5.6"},
+		Variant{Name: "mutant: start id set when the buffer is not empty", Property: "C05", File: "proxy/proxy_streams.go",
+			Old: "\tif b.size == 0 {\n\t\tb.startProxyID = proxyID\n", New: "\tif b.size != 0 {\n\t\tb.startProxyID = proxyID\n", Expect: "O5.7"},
+		Variant{Name: "mutant: start id never set", Property: "C05", File: "proxy/proxy_streams.go",
+			Old: "\t\tb.startProxyID = proxyID\n", New: "\t\t\n", Expect: "O5.7"},
+		Variant{Name: "mutant: AggregateUpTo returns nothing for a non-empty buffer", Property: "C05", File: "proxy/proxy_streams.go",
+			Old: "\tif b.size == 0 {\n\t\treturn result, 0\n", New: "\tif b.size != 0 {\n\t\treturn result, 0\n", Expect: "O5.8"},
+		Variant{Name: "mutant: AggregateUpTo withholds the entry whose id equals the watermark", Property: "C05", File: "proxy/proxy_streams.go",
+			Old: "\tif watermark < b.startProxyID {\n", New: "\tif watermark <= b.startProxyID {\n", Expect: "O5.8"},
+		Variant{Name: "mutant: watermark-only batch takes the task branch (last element of an empty slice)", Property: "C02", File: "proxy/proxy_streams.go",
+			Old: "\t\t\tif len(m.Messages.ReplicationTasks) > 0 {\n", New: "\t\t\tif len(m.Messages.ReplicationTasks) >= 0 {\n", Expect: "O2.10"},
+		Variant{Name: "mutant: RawTaskInfo.TaskId rewritten only when RawTaskInfo is nil", Property: "C02", File: "proxy/proxy_streams.go",
+			Old: "\t\t\t\t\tif t.RawTaskInfo != nil {\n", New: "\t\t\t\t\tif t.RawTaskInfo == nil {\n", Expect: "O2.3"},
+		Variant{Name: "mutant: receiver dereferences a failed type assertion's value", Property: "C02", File: "proxy/proxy_streams.go",
+			Old: "\t\tif attr, ok := resp.GetAttributes().(*adminservice.StreamWorkflowReplicationMessagesResponse_Messages); ok && attr.Messages != nil {\n", New: "\t\tif attr, ok := resp.GetAttributes().(*adminservice.StreamWorkflowReplicationMessagesResponse_Messages); ok || attr.Messages != nil {\n", Expect: "O2.11"},
+		Variant{Name: "mutant: receiver Run returns without waiting for its workers", Property: "C04", File: "proxy/proxy_streams.go",
+			Old: "\twg.Wait()\n", New: "\t\n", Expect: "O4.13"},
+		Variant{Name: "mutant: receive worker never calls Done", Property: "C04", File: "proxy/proxy_streams.go",
+			Old: "\t\t\twg.Done()\n\t\t}()\n\t\t_ = r.recvReplicationMessages(sourceStreamClient, shutdownChan)\n", New: "\t\t\t\n\t\t}()\n\t\t_ = r.recvReplicationMessages(sourceStreamClient, shutdownChan)\n", Expect: "O4.13"},
+		Variant{Name: "mutant: receiver's stream context is never cancelled", Property: "C04", File: "proxy/proxy_streams.go",
+			Old: "\tdefer cancel()\n", New: "\t\n", Expect: "O4.14"},
+		Variant{Name: "mutant: sender Run returns without closing its delivery channel", Property: "C03", File: "proxy/proxy_streams.go",
+			Old: "\tclose(s.sendMsgChan)\n", New: "\t\n", Expect: "O3.10"},
+		Variant{Name: "mutant: NotifyNewTargetShard no longer replays the pending watermark", Property: "C03", File: "proxy/proxy_streams.go",
+			Old: "\tr.sendPendingWatermarkToShard(targetShardID)\n", New: "\t\n", Expect: "O3.11"},
+		Variant{Name: "mutant: forwarder starts its relays without counting them", Property: "C06", File: "proxy/admin_stream_transfer.go",
+			Old: "\twg.Add(2)\n\tgo f.forwardAcks(&wg)\n", New: "\t\n\tgo f.forwardAcks(&wg)\n", Expect: "O6.12"},
+		Variant{Name: "mutant: MergeRemoteState forgets the decoded state", Property: "C09", File: "proxy/shard_manager.go",
+			Old: "\t\tsd.manager.remoteNodeStates[state.NodeName] = state\n", New: "\t\t\n", Expect: "O9.11"},
+		Variant{Name: "mutant: release not announced to the peers", Property: "C09", File: "proxy/shard_manager.go",
+			Old: "\t\tsm.broadcastShardChange(\"unregister\", clientShardID)\n", New: "\t\t\n", Expect: "O9.12"},
+		Variant{Name: "mutant: UnregisterShard keeps the claim", Property: "C09", File: "proxy/shard_manager.go",
+			Old: "\t\tdelete(sm.localShards, key)\n", New: "\t\t\n", Expect: "O9.12"},
+		Variant{Name: "mutant: remote forward attempted only without a memberlist", Property: "C09", File: "proxy/shard_manager.go",
+			Old: "\tif sm.memberlistConfig != nil {\n\t\tif owner, ok := sm.getShardOwner(targetShard); ok && owner != sm.GetNodeName() {\n", New: "\tif sm.memberlistConfig == nil {\n\t\tif owner, ok := sm.getShardOwner(targetShard); ok && owner != sm.GetNodeName() {\n", Expect: "O9.13"},
+		Variant{Name: "mutant: local shard-change callback no longer replays", Property: "C03", File: "proxy/shard_manager.go",
+			Old: "\t\t\tsm.notifyReceiversOfNewShard(shard)\n\t\t}\n\t\tif sm.intraMgr != nil {\n\t\t\tsm.intraMgr.Notify()\n\t\t}\n\t})\n\n", New: "\t\t\t\n\t\t}\n\t\tif sm.intraMgr != nil {\n\t\t\tsm.intraMgr.Notify()\n\t\t}\n\t})\n\n", Expect: "O3.11"},
+	)
 	// ---- swallowed errors and retained state (general rules)
 	addVariants(
 		Variant{Name: "blob repair error logged and dropped", Property: "C17", File: refl,
